@@ -181,7 +181,7 @@ def run(chk):
     from peptacular.sequence import sequence_funcs
     tier = chk.tier
     rng = chk.rng
-    chk.lean_build(['PeptVerif.Props.C12'], DRV)
+    chk.lean_build(['PeptVerif.Props.C12', 'PeptVerif.Props.C12Concrete'], DRV)
     quirks = E.probe_quirks()
     chk.notes.append(f'composition-path behaviours shown by the implementation (owned by C02/C03): '
                      f'deltaIgnoresMult={quirks[0]} labileDeltaAnyIon={quirks[1]}')
@@ -345,6 +345,36 @@ def run(chk):
 
     chk.correspond('comp_mass', DRV, mt, mline('comp_mass'), comp_impl, compare=comp_cmp,
                    nontrivial_fn=lambda t, im: nontrivial(t[0][0]))
+
+    # ------------------------------------------------------------------ model vs model: the abstract model at the resolved
+    # environment against the concrete mass model of C02/C03 (drv_c02, Model/Mass.lean + Model/CompCalc.lean), fast path and
+    # label path, on the same inputs. The fast path is also bridged by a theorem (Props/C12Concrete.mass_bridge_fast);
+    # the label path of the two models is tied only here and through their separate correspondence with the implementation.
+    drv2 = os.path.join(core.LEAN, '.lake', 'build', 'bin', 'drv_c02')
+    if os.path.exists(drv2):
+        from . import c02_common as C2
+        mm = [t for t in mt if not t[0][2]]        # use_isotope_on_mods=False: both drivers take the plain `mass` defaults
+        l12 = [mline('mass')(t) for t in mm]
+        l02 = [C2.line('mass', _ann(t[0][0]), dict(charge=t[0][3], ion_type=t[0][1])) for t in mm]
+        r12 = chk.driver(DRV, l12)
+        r02 = chk.driver('drv_c02', l02)
+        st = chk.corr.setdefault('model_vs_model_mass', {'evaluations': 0, 'disagreements': 0, 'samples': []})
+        for t, a12, a02 in zip(mm, r12, r02):
+            st['evaluations'] += 1
+            chk.evaluations += 1
+            ok = False
+            if a02.startswith('ok ') and '/' in a12:
+                ok = abs(float(a02[3:]) - float(E.frac(a12))) <= 1e-8
+            elif a02.startswith('ERR') and a12.startswith(('ERR', 'unmod')):
+                ok = True
+            if not ok:
+                st['disagreements'] += 1
+                if len([d for d in chk.disagreements if d['op'] == 'model_vs_model_mass']) < 5:
+                    chk.disagreements.append({'op': 'model_vs_model_mass', 'line': t[0][0]['a'], 'impl': 'C02 model: ' + a02,
+                                              'model': 'C12 model: ' + a12})
+        chk.count('model_vs_model_labelled', sum(1 for t in mm if _ann(t[0][0]).isotope_mods))
+    else:
+        chk.notes.append('drv_c02 not built: model-vs-model check skipped')
 
     # ------------------------------------------------------------------ oracle: rule form vs explicit form on the implementation
     osel = allc if chk.broken() or big else allc[:400]
